@@ -5,7 +5,7 @@ from vx.unit import Unit
 from vx.extract import C
 from .common import replay_scripts
 
-PROPS = ['C05', 'C08']
+PROPS = ['C05', 'C08', 'C04']
 HEADER = '#![feature(pattern)]\nuse vstd::prelude::*;\nverus! {\n'
 FOOTER = '\n} // verus!\nfn main() {}\n'
 
@@ -34,13 +34,66 @@ pub uninterp spec fn norm_spec(s: Seq<char>) -> Seq<char>;
     ])
     f.at_body_start(fn, 'broadcast use axiom_str_ends_with_char;')
     u.add(f)
+    # ---- whether the pattern is rooted: decided from the text of the WHOLE first path component
+    import re
+    from vx.extract import ExtractError
+    u.add(pt.item(r'^pub\(crate\) enum PatternPiece ', 'PatternPiece').r1(keep_derive=()).r11_pub())
+    u.raw('''pub type PatternWord = Vec<PatternPiece>;
+#[verifier::external_body] pub struct PathBuf { _p: u8 }
+pub open spec fn piece_text(p: PatternPiece) -> Seq<char> { match p { PatternPiece::Pattern(s) => s@, PatternPiece::Literal(s) => s@ } }
+pub open spec fn flat_text(ps: Seq<PatternPiece>) -> Seq<char> decreases ps.len() { if ps.len() == 0 { Seq::empty() } else { flat_text(ps.drop_last()) + piece_text(ps.last()) } }
+pub uninterp spec fn root_spec(text: Seq<char>) -> Option<PathBuf>;
+impl PatternPiece { #[verifier::external_body] pub fn as_str(&self) -> (r: &str) ensures r@ == piece_text(*self) { unimplemented!() } }
+#[verifier::external_body] pub fn pieces_flatten(ps: &Vec<PatternPiece>) -> (r: String) ensures r@ == flat_text(ps@) { unimplemented!() }        // ps.iter().map(|p| p.as_str()).collect::<String>()
+#[verifier::external_body] pub fn pattern_path_root(text: &str) -> (r: Option<PathBuf>) ensures r == root_spec(text@) { unimplemented!() }        // sys::fs::pattern_path_root
+#[verifier::external_body] pub fn vx_first<T>(v: &Vec<T>) -> (r: Option<&T>) ensures v@.len() == 0 ==> r is None, v@.len() > 0 ==> r == Some(&v@[0]) { unimplemented!() }   // <[T]>::first
+''')
+    fn2 = 'absolute_root_of'
+    g = pt.slice('expand', r'^\s*let absolute_root = ', r'^\s*let absolute_root = ', 'fn absolute_root_of(components: &Vec<PatternWord>) -> Option<PathBuf>', fn2)
+    g.r1()
+    g.resub(r'\b(\w+)\s*\.iter\(\)\s*\.map\(\|p\| p\.as_str\(\)\)\s*\.collect\(\)', r'pieces_flatten(\1)', 'R14', 'pieces.iter().map(as_str).collect::<String>() -> stub', count=None)
+    g.resub(r'sys::fs::pattern_path_root\(&flattened\)', 'pattern_path_root(flattened.as_str())', 'R14', 'sys helper -> stub; deref coercion spelled out', count=None)
+    g.resub(r'sys::fs::pattern_path_root\(', 'pattern_path_root(', 'R14', 'sys helper -> stub', count=None)
+    g.resub(r'\b(\w+)\s*\.first\(\)', r'vx_first(\1)', 'R14', '<[T]>::first -> stub', count=None)
+    # Option::and_then(recv, |v| e) -> match recv { Some(v) => e, None => None }, innermost receiver first (std)
+    m = re.search(r'let absolute_root = (.*);\n', g.text, re.S)
+    if not m:
+        raise ExtractError('unsupported: the statement defining absolute_root changed shape')
+    expr = m.group(1)
+    for _ in range(6):
+        k = expr.find('.and_then(|')
+        if k < 0:
+            break
+        # the receiver is everything before (the first call of the chain comes first); the closure runs to the matching parenthesis
+        o = k + len('.and_then')
+        depth, j = 0, o
+        while True:
+            if expr[j] == '(':
+                depth += 1
+            elif expr[j] == ')':
+                depth -= 1
+                if depth == 0:
+                    break
+            j += 1
+        clos = expr[o + 1:j]
+        bar = clos.index('|', 1)
+        param = clos[1:bar]
+        body = clos[bar + 1:].strip()
+        expr = 'match %s { Some(%s) => %s, None => None }' % (expr[:k].rstrip(), param, body) + expr[j + 1:]
+    g.resub(re.escape(m.group(1)), expr.replace('\\', '\\\\'), 'R14', 'Option::and_then(recv, |v| e) -> match recv { Some(v) => e, None => None } (std), applied from the outermost call inwards', count=1)
+    g.resub(r'\n\}$', '\n    absolute_root\n}', 'R6', 'wrapper epilogue: the live variable', count=1)
+    g.sig(fn2, ret='r', ensures=[
+        C('C04,C05,C08 a-pattern-is-rooted-only-when-the-text-of-its-whole-first-component-says-so', 'r == (if components@.len() == 0 { None::<PathBuf> } else { root_spec(flat_text(components@[0]@)) })'),
+    ])
+    u.add(g)
     u.raw(FOOTER)
+    u.assume('external_body', 'sys::fs::pattern_path_root (uninterpreted), the flattening of a component and <[T]>::first are stubs')
     u.assume('external_body', 'Path::to_string_lossy and sys::fs::normalize_path_separators are stubs with uninterpreted results')
     u.assume('assume_specification', 'str::ends_with(char) (contracts/std/str_ops.rs)')
-    u.assume('uninterp', 'lossy_spec, norm_spec, str_ends_with_spec')
+    u.assume('uninterp', 'lossy_spec, norm_spec, str_ends_with_spec, root_spec')
     u.assume('axiom', 'str::ends_with(char) looks at the last character')
     u.assume('stub', 'that the matches are stripped of this prefix with strip_prefix (a miss leaves them absolute) is read off the end of Pattern::expand, not proved')
-    u.expected_min_fns = 1
+    u.expected_min_fns = 2
     u.counterexample = replay_scripts(repo, [
         ('cd /; echo et[c]; echo ./tm[p]; cd /usr; echo bi[n]', 'etc\n./tmp\nbin\n'),
     ])
